@@ -284,7 +284,7 @@ def cond_of(test):
         return '.isSdk2013'
     if isinstance(test, ast.Compare) and len(test.ops) == 1 and isinstance(test.ops[0], ast.Is) \
             and ast.unparse(test.left) == 'version' and ast.unparse(test.comparators[0]).startswith('StaticPropVersion.'):
-        return '(.isVer ' + lean_string(ast.unparse(test.comparators[0]).split('.', 1)[1]) + ')'
+        return '(.isVer ' + lean_chars(ast.unparse(test.comparators[0]).split('.', 1)[1]) + ')'
     return '.unknown'
 
 
@@ -523,7 +523,8 @@ def generate(repo):
                         g, what = find_guard(fns[f], s.node, n)
                     else:
                         g, what = False, '(field of a record)'
-                    str_sites.append((f, fm, n, g, what))
+                    if (f, fm, n, g, what) not in str_sites:
+                        str_sites.append((f, fm, n, g, what))
 
     # texture limit: `if len(tex) >= N: raise`
     tex_limit = None
@@ -617,8 +618,8 @@ def generate(repo):
     A('def overlayWriterTail : List (List Char) := [' + ', '.join(lean_chars(s.fmt[1]) for s in ov_w[2:]) + ']')
     A('')
     A('/-- `StaticPropVersion` members (name, version, size), without UNKNOWN; DEFAULT alias. -/')
-    A('def propVersions : List PropVersion := [' + ', '.join(f'⟨{lean_string(n)}, {v}, {s}⟩' for n, v, s in versions) + ']')
-    A(f'def propDefault : String := {lean_string(default)}')
+    A('def propVersions : List PropVersion := [' + ', '.join(f'⟨{lean_chars(n)}, {v}, {s}⟩' for n, v, s in versions) + ']')
+    A(f'def propDefault : List Char := {lean_chars(default)}')
     A('/-- segments of one static-prop record in the reader / the writer: (condition, format) -/')
     for nm, segs in (('propReaderSegs', pr), ('propWriterSegs', pw)):
         A(f'def {nm} : List (PropCond × List Char) := [')
